@@ -25,6 +25,7 @@ ASSUMPTIONS = [
     "Unknown ids are well-formed lowercase hex strings (lengths 1..32) not matching any job; path-like strings are not generated.",
     "A 'new session' is a new Project object; a sample of cases uses a real new interpreter process.",
 ]
+MANIFEST = {"technique": 'runtime monitoring: FS-call monitor (audit hook, P-readonly) + reference model of id / prefix resolution in fresh sessions', "engine": 'fs-call monitor (audit hook)'}
 TIME_CAP = {"quick": 60, "thorough": 900}
 
 
